@@ -52,7 +52,7 @@ def run(ctx):
             except Exception:
                 continue
             E = E_forced if E_forced is not None else [e for e in markers.EXTRAS if ctx.rng.random() < .35]
-            En = [unS(sess.ask(['name', S(e)])[5][1]) for e in E]
+            En = [markers.pep_norm(e) for e in E]
             vs = [ctx.rng.choice(['3.7', '3.8', '3.8.1', '3.9', '3.10', '2.7']) for _ in range(ctx.rng.randint(0, 3))]
             r1 = sess.ask(['evalx', str(a), [S(e) for e in E]])
             r2 = sess.ask(['evalxpv', str(a), [S(e) for e in E], [S(v) for v in vs]])
